@@ -13,6 +13,7 @@
 (*   clear_variables / clear_functions / clear / set_builtins (slot [, d]) *)
 (*   clone      (slot, to)                 get_value (slot, n, res)        *)
 (*   build      (src, res [, tree])        precompilation only             *)
+(*   deep       (family, len, res)         a maximal-nesting input: totality*)
 (* A trace is accepted iff every event is matched: the POSTCONDITION       *)
 (* compares the number of consumed events with the length of the trace and *)
 (* prints the first unmatched event otherwise.                             *)
@@ -99,6 +100,9 @@ EvGetValue ==
      IF E.n \in DOMAIN c.vars THEN E.res.p = "val" /\ SameValue(c.vars[E.n], E.res.v) ELSE E.res.p = "none"
   /\ UNCHANGED <<ctxs, log>>
 
+\* a 4096-character input of maximal nesting went through every stage: totality only
+EvDeep == /\ IsEvent("deep") /\ E.res.p \in {"val", "err"} /\ UNCHANGED <<ctxs, log>>
+
 Simple(name, F(_)) ==
   /\ IsEvent(name)
   /\ SameVars(F(ctxs[E.slot]), E.post)
@@ -127,7 +131,7 @@ EvClone ==
 \* the state after the last matched event is also kept in a TLC register, so that the diagnosis of a rejection can
 \* show what the specification would have allowed
 Track == TLCSet(1, l') /\ TLCSet(2, ctxs')          \* evaluated last: only when every conjunct of the event held
-Next == (EvCtx \/ EvBuild \/ EvEval \/ EvSetValue \/ EvGetValue \/ EvClearVariables \/ EvClearFunctions \/ EvClear
+Next == (EvCtx \/ EvDeep \/ EvBuild \/ EvEval \/ EvSetValue \/ EvGetValue \/ EvClearVariables \/ EvClearFunctions \/ EvClear
         \/ EvSetFunction \/ EvSetBuiltins \/ EvClone) /\ Track
 
 \* reached position (register 1) = number of events + 1  <=>  every event was matched
